@@ -51,6 +51,10 @@ type Program struct {
 	ByPath map[string]*packages.Package // every package, including deps
 	Prog   *ssa.Program
 	SSA    map[string]*ssa.Package
+	// Renamed maps the frozen full name of an unexported helper that no longer
+	// exists to the function that took its place (see rules.ResolveRenames).
+	Renamed      map[string]*ssa.Function
+	RenamedTypes map[string]*types.Named
 
 	cha *callgraph.Graph
 	vta *callgraph.Graph
@@ -172,7 +176,10 @@ func (p *Program) Func(pkg, name string) *ssa.Function {
 	if sp == nil {
 		return nil
 	}
-	return sp.Func(name)
+	if f := sp.Func(name); f != nil {
+		return f
+	}
+	return p.Renamed[pkg+"."+name]
 }
 
 // Method resolves a method by package path, type name and method name. It
@@ -182,11 +189,14 @@ func (p *Program) Method(pkg, typ, name string) *ssa.Function {
 	if sp == nil {
 		return nil
 	}
-	t := sp.Type(typ)
-	if t == nil {
+	var named types.Type
+	if t := sp.Type(typ); t != nil {
+		named = t.Type()
+	} else if rt := p.RenamedTypes[pkg+"."+typ]; rt != nil {
+		named = rt
+	} else {
 		return nil
 	}
-	named := t.Type()
 	for _, T := range []types.Type{named, types.NewPointer(named)} {
 		ms := p.Prog.MethodSets.MethodSet(T)
 		if sel := ms.Lookup(sp.Pkg, name); sel != nil {
@@ -204,7 +214,10 @@ func (p *Program) Method(pkg, typ, name string) *ssa.Function {
 			}
 		}
 	}
-	return nil
+	if f := p.Renamed["(*"+pkg+"."+typ+")."+name]; f != nil {
+		return f
+	}
+	return p.Renamed["("+pkg+"."+typ+")."+name]
 }
 
 // Global resolves a package-level variable.
@@ -225,7 +238,7 @@ func (p *Program) NamedType(pkg, name string) *types.Named {
 	}
 	t := sp.Type(name)
 	if t == nil {
-		return nil
+		return p.RenamedTypes[pkg+"."+name]
 	}
 	n, _ := t.Type().(*types.Named)
 	return n
